@@ -273,12 +273,21 @@ func resLine(code int, enc func(l *hx.L)) (string, bool) {
 
 var nparse = 3
 
+// texts above this size are checked by the oracles only, not by model correspondence
+const corrMaxText = 16384
+
 func checkWF(d *description.Session, label string) []byte {
 	ctx.Eval()
 	ctx.Kind("wf-description/" + label)
 	caseLine, encOK := encode(func(l *hx.L) { l.N(1); pSessionCase(l, d) })
 	text, code := implMarshal(d)
 	idx := -1
+	if len(text) > corrMaxText {
+		// oracle only: the list-based model is too slow on 64 KiB lines; the round-trip, totality and
+		// determinism oracles below still run on the implementation
+		ctx.Kind("wf-description/large-oracle-only")
+		encOK = false
+	}
 	if encOK {
 		out, _ := resLine(code, func(l *hx.L) { l.Bytes(text) })
 		idx = ctx.Corr(caseLine, out)
@@ -353,6 +362,9 @@ func checkText(text []byte, label string, corr bool) {
 	input := textCase(5, text, nil)
 	s, sc, pv := implSDP(text)
 	inModel := textInModel(text)
+	if len(text) > corrMaxText {
+		corr = false
+	}
 	if corr && inModel {
 		out, ok := resLine(sc, func(l *hx.L) { pSDesc(l, s) })
 		if ok {
